@@ -2,6 +2,7 @@ package scen
 
 import (
 	"fmt"
+	"sort"
 	"strings"
 	"time"
 
@@ -102,7 +103,8 @@ func runC03(c *Ctx) {
 		tw.Cfg.QuerySigningKey = env.Key32
 	}
 	// user names: ordinary, empty, with domain
-	p.User = []string{"user0", "user0", "user0", "", "bob@corp.test"}[c.T.Choose(5)]
+	// (also names made of characters that mean something to pattern matchers)
+	p.User = []string{"user0", "user0", "user0", "", "bob@corp.test", "*", "user?", "[a-z]*", "user0|user1", ".*"}[c.T.Choose(10)]
 	placeholder := c.T.Bool(1, 2)
 	ipv6 := c.T.Bool(1, 4)
 	var hosts []string
@@ -204,19 +206,35 @@ func runC03(c *Ctx) {
 		authorised = false
 	}
 	// listeners for allowed and forbidden names, so that a wrongful dial is seen to succeed
+	// fault: the authorised host itself is down (connection refused); nothing else may be
+	// dialed in its place
+	down := authorised && c.W.Host[req.key] == nil && c.T.Bool(1, 4)
+	var shs []string
 	for h := range subst {
-		if c.W.Host[h] == nil {
+		shs = append(shs, h)
+	}
+	sort.Strings(shs)
+	for _, h := range shs {
+		if c.W.Host[h] == nil && !(down && h == req.key) {
 			c.W.AddHost(h, [][]byte{[]byte("hello from " + h)})
 		}
 	}
 	for _, h := range []string{req.key, entry, other, tokenHost} {
-		if h != "" && c.W.Host[h] == nil {
+		if h != "" && c.W.Host[h] == nil && !(down && h == req.key) {
 			c.W.AddHost(h, [][]byte{[]byte("hello from " + h)})
 		}
 	}
 	verdict := HostDenied
 	if authorised {
 		verdict = HostAllowed
+	}
+	if down {
+		if p.AllowedHost == req.key {
+			p.AllowedHost = "" // no stub host for it either
+		}
+		verdict = HostUnreachable
+		warm += " requested host is down;"
+		c.S.Count("fault.host.down")
 	}
 	cc := CPkt{Kind: KChannelCreate, HostKey: req.key, Verdict: verdict, Bytes: codec.ChannelCreate(req.name, req.port, req.declared)}
 	payload := c.T.Bytes(1+c.T.Choose(100), 0x33)
@@ -279,7 +297,7 @@ func runC03(c *Ctx) {
 	}
 	if c.S.Viol == nil {
 		// belongs() attributes dials by name; attribute the authorised host to this tunnel
-		if authorised {
+		if authorised && !down {
 			p.AllowedHost = req.key
 			t.Hosts = append(t.Hosts, c.W.Host[req.key])
 		}
